@@ -190,10 +190,16 @@ func (s *Sched) park(t *Task, st taskState, site string) {
 		s.mu.Unlock()
 		runtime.Goexit()
 	}
+	wasBlocked := t.state == tsBlocked
 	t.state = st
 	t.site = site
 	t.lockEpoch = s.unlockEpoch
 	s.mu.Unlock()
+	if wasBlocked {
+		// woken from a real blocking operation that had no Resume() after it: the scheduler
+		// may be idle-waiting for a kick
+		s.kickRoot()
+	}
 	<-t.wake
 	if s.isStopped() {
 		runtime.Goexit()
@@ -297,6 +303,17 @@ func Unlock(unlock func()) {
 // Run drives the tasks until every harness task is done, the fake-time horizon passes or maxSteps
 // scheduling decisions were made. Must be called from the bubble's root goroutine.
 func (s *Sched) Run(horizon time.Duration, maxSteps int) {
+	s.run(horizon, maxSteps, true)
+}
+
+// Drain keeps scheduling the remaining (non-harness) tasks for d of fake time, e.g. to let
+// background workers finish what they were doing after the load stopped.
+func (s *Sched) Drain(d time.Duration, maxSteps int) {
+	s.HorizonHit, s.StepsHit = false, false
+	s.run(d, maxSteps, false)
+}
+
+func (s *Sched) run(horizon time.Duration, maxSteps int, stopWhenHarnessDone bool) {
 	deadline := time.Now().Add(horizon) // fake clock inside the bubble
 	steps := 0
 	for {
@@ -325,7 +342,7 @@ func (s *Sched) Run(horizon time.Duration, maxSteps int) {
 			}
 		}
 		s.mu.Unlock()
-		if harnessLeft == 0 {
+		if harnessLeft == 0 && stopWhenHarnessDone {
 			s.Quiescent = true
 			return
 		}
